@@ -15,6 +15,8 @@
  *                         call has returned; thread B creates two library-managed instances and assembles into them; A is
  *                         released and finishes; B keeps using its instances (one of them grows) and destroys them; both are
  *                         compared with the same jobs run alone afterwards.
+ *   thrdrv debug <n> <r>  n threads, each with the debug listing switched on (asm_set_debug) together with chunk fitting
+ *                         on private instances; the listings go to /dev/null, results are compared with the single-threaded run.
  * Output: "threads=N rounds=R steps=S mismatches=M" and, for the first mismatches, one line each.
  * Built with -fsanitize=thread (TSan reports go to stderr, exit code 66) and, separately, at -O2.
  */
@@ -230,7 +232,57 @@ static int main_os(int k) {
   return mism ? 1 : 0;
 }
 
+/* ---- debug listing + chunk fitting in every thread (the library prints to stdout: sent to /dev/null, results go to the saved stdout) ---- */
+#include <unistd.h>
+#include <fcntl.h>
+static void run_job_debug(struct job *j) {
+  int s = 0;
+  for (int round = 0; round < j->rounds; round++) {
+    for (int k = 0; k < NPROG * 2 && s < MAXSTEPS; k++) {
+      int pi = (k + round) % NPROG;
+      uint8_t *buf = (k % 2) ? malloc(512) : NULL;
+      if (buf) memset(buf, 0xcc, 512);
+      assemblyline_t al = asm_create_instance(buf, 512);
+      if (!al) { j->r[s++] = (struct rec){-9, 0, 0, 0}; free(buf); continue; }
+      asm_set_debug(al, true);
+      if (k % 3 != 2) asm_set_chunk_size(al, 7 + (k % 10));
+      int rc = asm_assemble_str(al, PROGS[pi]);
+      int rc2 = asm_assemble_str(al, PROGS[(pi + 3) % NPROG]);
+      int off = asm_get_offset(al);
+      j->r[s++] = (struct rec){rc * 16 + rc2, off, -1, fnv(asm_get_code(al), off > 0 && off < 512 ? off : 0)};
+      asm_destroy_instance(al);
+      free(buf);
+    }
+  }
+  j->nsteps = s;
+}
+static void *thread_debug(void *p) { run_job_debug((struct job *)p); return NULL; }
+
+static int main_debug(int n, int rounds) {
+  int out = dup(1);
+  int nul = open("/dev/null", O_WRONLY);
+  fflush(stdout);
+  dup2(nul, 1);
+  if (n > 64) n = 64;
+  struct job *ref = calloc(1, sizeof *ref);
+  ref->rounds = rounds;
+  run_job_debug(ref);
+  struct job *jobs = calloc(n, sizeof *jobs);
+  pthread_t th[64];
+  for (int i = 0; i < n; i++) { jobs[i].rounds = rounds; pthread_create(&th[i], NULL, thread_debug, &jobs[i]); }
+  for (int i = 0; i < n; i++) pthread_join(th[i], NULL);
+  int mism = 0;
+  for (int i = 0; i < n; i++) {
+    if (jobs[i].nsteps != ref->nsteps) { mism++; continue; }
+    for (int s = 0; s < ref->nsteps; s++) if (memcmp(&jobs[i].r[s], &ref->r[s], sizeof(struct rec)) != 0) mism++;
+  }
+  fflush(stdout);
+  dprintf(out, "debug threads=%d rounds=%d steps=%d mismatches=%d\n", n, rounds, ref->nsteps, mism);
+  return mism ? 1 : 0;
+}
+
 int main(int argc, char **argv) {
+  if (argc > 3 && !strcmp(argv[1], "debug")) return main_debug(atoi(argv[2]), atoi(argv[3]));
   if (argc > 2 && !strcmp(argv[1], "sched")) return main_sched(atoi(argv[2]));
   if (argc > 2 && !strcmp(argv[1], "os")) return main_os(atoi(argv[2]));
   int n = argc > 1 ? atoi(argv[1]) : 4;
